@@ -83,16 +83,51 @@ def task_history(params, rec):
 IDENT = __import__("re").compile(r"[A-Za-z_][A-Za-z_0-9]*|\s+|.")
 
 
-def alpha_equivalent(a, b):
+def ast_alpha_equivalent(a, b):
+    """Python / NumPy text: the two sources parse to the same syntax tree up to a consistent one-to-one renaming of variable names (the formatter breaks lines
+    and adds trailing commas depending on the length of the names, which a token comparison would take for a difference)"""
+    import ast
+
+    ta, tb = ast.parse(a), ast.parse(b)
+    fwd, bwd = {}, {}
+
+    def same(x, y):
+        if type(x) is not type(y):
+            return False
+        if isinstance(x, ast.AST):
+            for f in x._fields:
+                u, v = getattr(x, f, None), getattr(y, f, None)
+                if (isinstance(x, ast.Name) and f == "id") or (isinstance(x, ast.arg) and f == "arg"):
+                    if fwd.setdefault(u, v) != v or bwd.setdefault(v, u) != u:
+                        return False
+                elif not same(u, v):
+                    return False
+            return True
+        if isinstance(x, list):
+            return len(x) == len(y) and all(same(u, v) for u, v in zip(x, y))
+        return x == y
+
+    return same(ta, tb)
+
+
+def alpha_equivalent(a, b, python_syntax=False):
     """True when the two texts are the same token sequence up to a consistent one-to-one renaming of identifiers"""
+    if python_syntax:
+        try:
+            return ast_alpha_equivalent(a, b)
+        except SyntaxError:
+            pass
     ta = [t for t in IDENT.findall(a) if not t.isspace()]
     tb = [t for t in IDENT.findall(b) if not t.isspace()]
     if len(ta) != len(tb):
         return False
     fwd, bwd = {}, {}
+    prev = ""
     for x, y in zip(ta, tb):
         isid = x[0].isalpha() or x[0] == "_"
-        if not isid or not (y[0].isalpha() or y[0] == "_"):
+        member = prev in (".", ":")  # (z).real(), std::sqrt: a member / qualified name is not a local variable, even when a local is called `real` too
+        prev = x
+        if not isid or not (y[0].isalpha() or y[0] == "_") or member:
             if x != y:
                 return False
             continue
@@ -123,7 +158,7 @@ def task_shared(params, rec):
         rec.count("shared-context:compared")
         rec.cls("shared", fname, a, b)
         if not r["same"]:
-            ae = alpha_equivalent(r["alone"], r["after"])
+            ae = alpha_equivalent(r["alone"], r["after"], python_syntax=b in ("python", "numpy"))
             diff = "\n".join(list(difflib.unified_diff(r["alone"].splitlines(), r["after"].splitlines(), "own-context", "after-" + a, lineterm="", n=0))[:12])
             rec.violation("shared-context:text-depends-on-earlier-target", dict(function=fname, first=a, second=b, only_local_names_renamed=ae, diff=diff[:1500]))
 
